@@ -4187,9 +4187,14 @@ impl QueryRouter {
 
                 let cmp =
                     self.compare_values_with_nulls(val_a.as_ref(), val_b.as_ref(), item.nulls);
+                // An explicit NULLS FIRST / NULLS LAST says where the nulls go whatever the
+                // direction: DESC reverses only the order among the non-null values.
+                let is_null = |v: &Option<Value>| matches!(v, None | Some(Value::Null));
+                let null_placement =
+                    item.nulls.is_some() && is_null(&val_a) != is_null(&val_b);
                 let cmp = match item.direction {
-                    SortDirection::Asc => cmp,
-                    SortDirection::Desc => cmp.reverse(),
+                    SortDirection::Desc if !null_placement => cmp.reverse(),
+                    SortDirection::Asc | SortDirection::Desc => cmp,
                 };
 
                 if cmp != std::cmp::Ordering::Equal {
